@@ -8,6 +8,7 @@ from __future__ import annotations
 
 import ast
 import random
+import re
 
 from vf.common import Acc, Ctx, sig_of, fmt_exc
 
@@ -110,8 +111,13 @@ def classify(v: dict) -> str | None:
 	"""Open finding 'chained-assignment-last-operand-unreachable': `a = b = c` – MoveAssign exposes receivers [a] and value b; c is not
 	reachable from the node. Matched only when the differing statement is an assignment with more than one target group on the CPython side."""
 	d = v['detail']
-	if v['kind'] == 'tree/differs' and "/assign[1]: length 1 vs" in d.split('\n')[0]:
+	first = d.split('\n')[0]
+	if v['kind'] == 'tree/differs' and "/assign[1]: length 1 vs" in first:
 		return 'chained-assignment-last-operand-unreachable'
+	# 'with (a, b):' – the only with-item is a parenthesised tuple without `as`: tranp has ONE item whose expression is a tuple, CPython has the tuple's elements as items
+	m = re.search(r"/with\[1\](/\[0\]/\[0\]: length 2 vs|: length 1 vs \d+:)", first)
+	if v['kind'] == 'tree/differs' and m and re.search(r'^\s*with \(.*\):\s*$', d, re.M) and "('tuple'," in first:
+		return 'parenthesised-with-items-read-as-tuple'
 	return None
 
 
@@ -127,6 +133,7 @@ SPECIAL = [
 ]
 
 WITNESS_CHAIN = 'a = b = c\n'
+WITNESS_WITH = 'with (a, b):\n\tpass\n'
 
 
 def shard(ctx: Ctx, acc: Acc) -> None:
@@ -138,6 +145,7 @@ def shard(ctx: Ctx, acc: Acc) -> None:
 		for i, text in enumerate(SPECIAL):
 			check_case(acc, {'kind': 'source', 'source': text, 'features': ['stmt:if']})
 		check_case(acc, {'kind': 'source', 'source': WITNESS_CHAIN, 'features': ['assign-chain']})
+		check_case(acc, {'kind': 'source', 'source': WITNESS_WITH, 'features': ['stmt:with']})
 	for i in range(n):
 		if not ctx.mine(i):
 			continue
